@@ -13,15 +13,15 @@ mod vk_foreach {
         let mut p = 0;
         while p < N {
             if p < len {
-                if rg_own(p) { assert!(visits[p] == 1, "[C12 once-per-own] the function is invoked exactly once for every position this call reserved"); }
-                else { assert!(visits[p] == 0, "[C12 only-own] the function is never invoked for a position reserved by somebody else"); }
-            } else { assert!(visits[p] == 0, "[C12 in-range] the function is never invoked for a position past the end"); }
+                if rg_own(p) { assert!(visits[p] == 1, "[C12 C01 once-per-own] the function is invoked exactly once for every position this call reserved"); }
+                else { assert!(visits[p] == 0, "[C12 C01 only-own] the function is never invoked for a position reserved by somebody else"); }
+            } else { assert!(visits[p] == 0, "[C12 C01 in-range] the function is never invoked for a position past the end"); }
             p += 1;
         }
         assert!(rg().n >= 1 && rg_last_ret() >= len, "[C12 returns-exhausted] the call returns only after one of its pulls observed the end of the iterator");
     }
 
-    // @harness name=foreach_slice props=C12,C02 kind=bounded bound="slice length <= 3; chunk size in 1..=3 (both code paths); interference steps of any size"
+    // @harness name=foreach_slice props=C12,C02,C01 kind=bounded bound="slice length <= 3; chunk size in 1..=3 (both code paths); interference steps of any size"
     #[kani::proof]
     #[kani::unwind(7)]
     #[kani::stub(crate::iter::atomic_counter::AtomicCounter::fetch_and_add, rg_faa)]
@@ -77,7 +77,7 @@ mod vk_foreach {
         assert!(rg().n >= 1 && rg_last_ret() >= len, "[C12 returns-exhausted] the call returns only after one of its pulls observed the end of the iterator");
     }
 
-    // @harness name=foreach_range props=C12,C02 tier=thorough kind=bounded bound="range length <= 3, any start; chunk size in 1..=3; interference steps of any size"
+    // @harness name=foreach_range props=C12,C02,C01 tier=thorough kind=bounded bound="range length <= 3, any start; chunk size in 1..=3; interference steps of any size"
     #[kani::proof]
     #[kani::unwind(7)]
     #[kani::stub(crate::iter::atomic_counter::AtomicCounter::fetch_and_add, rg_faa)]
@@ -99,6 +99,50 @@ mod vk_foreach {
         kani::cover!(chunk == 2 && len == 3, "buffered code path");
         chk_visits(len, &visits);
     }
+
+    // for_each / fold over a wrapped iterator of unknown length (inexact, even untruthful size hint), real atomics, one thread:
+    // every element exactly once, in order, and the call returns (the unwinding assertions bound the number of pulls)
+    struct Src { k: usize, len: usize, hint: (usize, Option<usize>) }
+    impl Iterator for Src {
+        type Item = usize;
+        fn next(&mut self) -> Option<usize> { if self.k < self.len { self.k += 1; Some(self.k - 1) } else { None } }
+        fn size_hint(&self) -> (usize, Option<usize>) { self.hint }
+    }
+    // (one harness per code path: a symbolic choice between them makes CBMC explode)
+    fn run_foreach_iter(which: u8, chunk: usize) {
+        use crate::ConIterOfIter;
+        let len: usize = kani::any();
+        kani::assume(len <= 2);
+        let honest: bool = kani::any();
+        let hint = if honest { (len, Some(len)) } else { (kani::any(), kani::any()) };
+        let it = ConIterOfIter::new(Src { k: 0, len, hint });
+        let mut cnt = 0usize;
+        if which == 0 {
+            it.for_each(chunk, |v| { assert!(v == cnt, "[C12 C01 C04 iter-foreach-order] a single thread's for_each visits the elements in source order, each once"); cnt += 1; });
+        } else if which == 1 {
+            it.enumerate_for_each(chunk, |i, v| { assert!(i == v && v == cnt, "[C12 C01 C02 C04 iter-foreach-order] enumerate_for_each passes (position, element) in source order, each once"); cnt += 1; });
+        } else {
+            cnt = it.fold(chunk, 0usize, |k, v| { assert!(v == k, "[C12 C01 C04 iter-fold-order] fold consumes the elements in source order, each once"); k + 1 });
+        }
+        kani::cover!(len == 2 && !honest, "two elements, inexact hint");
+        assert!(cnt == len, "[C12 C01 iter-foreach-all] every element of the wrapped iterator is visited before the call returns");
+    }
+    // @harness name=foreach_iter_single props=C12,C01,C04 kind=bounded bound="wrapped iterator of length <= 2 with an arbitrary size hint; for_each with chunk size 1; sequential (real atomics)"
+    #[kani::proof]
+    #[kani::unwind(6)]
+    fn foreach_iter_single() { run_foreach_iter(0, 1); }
+    // @harness name=foreach_iter_buffered props=C12,C01,C04 kind=bounded bound="wrapped iterator of length <= 2 with an arbitrary size hint; for_each with chunk size 2; sequential (real atomics)"
+    #[kani::proof]
+    #[kani::unwind(6)]
+    fn foreach_iter_buffered() { run_foreach_iter(0, 2); }
+    // @harness name=foreach_iter_enumerate props=C12,C01,C02,C04 kind=bounded bound="wrapped iterator of length <= 2 with an arbitrary size hint; enumerate_for_each with chunk size 2; sequential (real atomics)"
+    #[kani::proof]
+    #[kani::unwind(6)]
+    fn foreach_iter_enumerate() { run_foreach_iter(1, 2); }
+    // @harness name=foreach_iter_fold props=C12,C01,C04 kind=bounded bound="wrapped iterator of length <= 2 with an arbitrary size hint; fold with chunk size 2; sequential (real atomics)"
+    #[kani::proof]
+    #[kani::unwind(6)]
+    fn foreach_iter_fold() { run_foreach_iter(2, 2); }
 
     // documented panics for chunk size zero (C16): #[kani::should_panic] harnesses -- each passes iff the call panics
     // @harness name=chunk_zero_panics_for_each group=default,nodebug props_nodebug=C17 props=C16,C12 kind=complete expect=panic
